@@ -272,7 +272,14 @@ def run(prop, tier):
 
         def sim_one(m):
             tg = {i: [int(round(float(e.dist.par[0]) * 1000))] for i, e in enumerate(m.elems, 1) if not isinstance(e, I.Token)}
-            return G.model_check(m, tg, list(PROP_INVARIANTS[prop]), liveness=False, tag="sim", workers=1, simulate=(60, 600), timeout=900)
+            invs = list(PROP_INVARIANTS[prop])
+            if "IClosed" in invs:
+                # "no open descriptor is left" is stated for molecules whose outer ends are closed: the closability analysis (GenerateTypes) says
+                # which instances those are (open-end, hand-over into a suffix with several descriptors ... are not)
+                wp, _errs, _n, closed = G.closability(m, tag="simtypes")
+                if not (wp and closed):
+                    invs.remove("IClosed")
+            return G.model_check(m, tg, invs, liveness=False, tag="sim", workers=1, simulate=(60, 600), timeout=900)
         for m, r in zip(big, G.parallel(sim_one, big, workers=8)):
             mc_states += r["states"]
             mc_trans += r["states"]
